@@ -27,10 +27,38 @@ Fixpoint has_term (s : string) : bool :=
   | _ => false
   end.
 
-(* comment_filter for a generator with start / line prefix / end strings *)
-Definition comment_filter (start end_ : option string) (prefix : string) (content : string) : string :=
+(* characters (single bytes) that str.splitlines() - hence Jinja's indent filter - treats as line breaks besides the newline:
+   the filter turns them into blanks first (U+0085, U+2028, U+2029 are handled by the implementation as well; the byte-level model
+   covers the single-byte ones) *)
+Definition is_sep (c : ascii) : bool :=
+  let n := nat_of_ascii c in
+  Nat.eqb n 13 || Nat.eqb n 11 || Nat.eqb n 12 || Nat.eqb n 28 || Nat.eqb n 29 || Nat.eqb n 30.
+Fixpoint flatten (s : string) : string :=
+  match s with EmptyString => "" | String c r => String (if is_sep c then " "%char else c) (flatten r) end.
+
+(* line comments: the last backslash of a line that has only blanks after it becomes the entity (it would splice the next line) *)
+Definition is_blank (c : ascii) : bool := Ascii.eqb c " "%char || Ascii.eqb c "009"%char.
+Fixpoint all_blank (s : string) : bool := match s with EmptyString => true | String c r => is_blank c && all_blank r end.
+Fixpoint fix_line (s : string) : string :=
+  match s with
+  | EmptyString => ""
+  | String c r => if Ascii.eqb c bslash && all_blank r then ("&#92;" ++ r)%string else String c (fix_line r)
+  end.
+
+(* comment_filter as it was before the repairs of the fourth session (kept for the refutation theorems) *)
+Definition comment_filter0 (start end_ : option string) (prefix : string) (content : string) : string :=
   let content := match end_ with Some _ => neutralize content | None => content end in
   let body := (prefix ++ join (String nl prefix) (split_on nl content))%string in
+  let head := match start with Some s => (s ++ String nl "")%string | None => "" end in
+  let tail := match end_ with Some e => (String nl e)%string | None => "" end in
+  (head ++ body ++ tail)%string.
+
+(* comment_filter for a generator with start / line prefix / end strings (generator.py) *)
+Definition comment_lines (end_ : option string) (content : string) : list string :=
+  let c := flatten content in
+  match end_ with Some _ => split_on nl (neutralize c) | None => map fix_line (split_on nl c) end.
+Definition comment_filter (start end_ : option string) (prefix : string) (content : string) : string :=
+  let body := (prefix ++ join (String nl prefix) (comment_lines end_ content))%string in
   let head := match start with Some s => (s ++ String nl "")%string | None => "" end in
   let tail := match end_ with Some e => (String nl e)%string | None => "" end in
   (head ++ body ++ tail)%string.
@@ -42,11 +70,11 @@ Fixpoint replace_char (c : ascii) (r : string) (s : string) : string :=
   | String a t => if Ascii.eqb a c then (r ++ replace_char c r t)%string else String a (replace_char c r t)
   end.
 
-(* decl.deprecated.replace('\\', r'\\').replace('\n', r'\n').replace('"', r'\"') *)
+(* re.sub(separators, ' ', decl.deprecated).replace('\\', r'\\').replace('\n', r'\n').replace('"', r'\"') *)
 Definition escape_msg (m : string) : string :=
   replace_char dquote (String bslash (String dquote ""))
     (replace_char nl (String bslash "n")
-       (replace_char bslash (String bslash (String bslash "")) m)).
+       (replace_char bslash (String bslash (String bslash "")) (flatten m))).
 
 (* body of a C / C++ / Objective-C string literal: no bare quote, no raw newline, no dangling backslash *)
 Fixpoint lit_ok (esc : bool) (s : string) : bool :=
